@@ -135,7 +135,8 @@ def c19(report, rng, tier, findings):
             # as a later conjunct, or alone
             v0 = case['vars'][0][0]
             pool_ = gen.FALSY + [('i', 1), ('i', 2)]
-            cont = ('lit', ('l',) + tuple(rng.sample(pool_, rng.randint(0, len(pool_)))))       # possibly EMPTY
+            k_ = 0 if rng.random() < 0.3 else rng.randint(0, len(pool_))
+            cont = ('lit', ('l',) + tuple(rng.sample(pool_, k_)))       # often EMPTY
             if rng.random() < 0.3:
                 cont = ('attr', 'items', ('var', v0))          # the object's own (possibly empty) collection
             mem = ('in', ('attr', 'b', ('var', v0)), cont) if rng.random() < 0.7 else ('contains', cont, ('attr', 'b', ('var', v0)))
@@ -144,7 +145,7 @@ def c19(report, rng, tier, findings):
                 sub = ('lit', rng.choice([('s',), ('s',), ('s', 'a'), ('s', 'b')]))
                 cs = ('attr', 's', ('var', v0))
                 mem = rng.choice([('in', sub, cs), ('contains', cs, sub), ('in', cs, cs)])
-            if rng.random() < 0.35:
+            if rng.random() < 0.45:
                 mem = ('not', mem)
             g_ = gen.CondGen(rng, cfg, [v[0] for v in case['vars']])
             case['cond'] = [rng.choice([('and', g_.atom(), mem), ('and', mem, g_.atom()), mem, ('or', g_.atom(), mem)])]
